@@ -229,6 +229,10 @@ def bank_instr_task(task):
         for r, sl in zip(names, slots):
             if r != 'PC':
                 st['R'][r] = C.limbs(sl * 4)
+        if rnd.random() < 0.25:
+            # stacks at the edges of the address space: base +/- 8 must wrap modulo 2^32 in whichever bank it lands
+            for r in rnd.sample([x for x in names if x.startswith(('SP', 'LR', 'R1'))], 4):
+                st['R'][r] = C.limbs(rnd.choice([0xFFFFFFF8, 0xFFFFFFFC, 0, 4]))
         name, pat = rnd.choice(BANK_PATS_T32 if thumb else BANK_PATS_ARM)
         fixed = {'c': 14, 'n': rnd.choice(regs), 'm': newmode}
         if name.startswith('ldm') or name.startswith('stm'):
